@@ -486,16 +486,27 @@ class GateInterp(Interp):
         if t == "Binary" and e["op"] in ("-=", "+=") and is_budget(e["left"]):
             k = int_lit(e["right"])
             if e["op"] == "-=" and k == 1:
-                if self.zero:
-                    raise Exhausted()
-                self.decs += 1
-                return UNIT
+                return self.charge("plain")
             raise Unanalysable(f"budget changed by `{e['op']} {k}`")
         if t == "Assign" and is_budget(e["left"]):
-            raise Unanalysable("budget assigned")
+            # `budget = budget - 1`, `= budget.saturating_sub(1)`, `= b` with `Some(b) = budget.checked_sub(1)`: the same charge
+            v = self.eval(e["right"], env)
+            if isinstance(v, tuple) and v and v[0] == "budget-1":
+                return self.charge(v[1])
+            raise Unanalysable("budget assigned a value that is not `budget - 1`")
         if t == "MacroExpr":
             return ("opaque", "macro")
         return super().eval(e, env)
+
+    def charge(self, kind):
+        """one unit taken from the budget; on an exhausted budget a plain / wrapping subtraction underflows, a saturating one
+        leaves it exhausted without charging"""
+        if self.zero:
+            if kind == "sat":
+                return UNIT
+            raise Exhausted()
+        self.decs += 1
+        return UNIT
 
     def equal(self, a, b, node):
         if a == ("budget",) and b == 0:
@@ -507,6 +518,8 @@ class GateInterp(Interp):
     def binary(self, op, l, r, node):
         if op in ("==", "!=") and (("budget",) in (l, r)) and (0 in (l, r)):
             return self.zero if op == "==" else not self.zero
+        if op == "-" and l == ("budget",) and r == 1:
+            return ("budget-1", "plain")
         if l == ("budget",) and r == 0 and op in (">", "<=", "<", ">="):
             return {">": not self.zero, "<=": self.zero, "<": False, ">=": True}[op]
         if isinstance(l, tuple) or isinstance(r, tuple):
@@ -541,6 +554,13 @@ class GateInterp(Interp):
         return ("opaque", name)
 
     def method(self, recv, name, targs, args, node):
+        if recv == ("budget",) and list(args) == [1]:
+            if name == "saturating_sub":
+                return ("budget-1", "sat")
+            if name == "wrapping_sub":
+                return ("budget-1", "wrap")
+            if name == "checked_sub":
+                return Opt(False) if self.zero else Opt(True, ("budget-1", "checked"))
         return ("opaque", name)
 
     def struct_expr(self, name, fields, node):
@@ -686,12 +706,14 @@ class ArmInterp(GateInterp):
             return self.limited
         if t == "Field" and e["member"] == "budget":
             self.touched = True
-        if t == "Binary" and e["op"] == "-=" and is_budget(e["left"]):
-            r = super().eval(e, env)
-            if self.zero_after is not None:
-                self.zero = self.zero_after.pop(0) if self.zero_after else True
-            return r
         return super().eval(e, env)
+
+    def charge(self, kind):
+        was_zero = self.zero
+        r = super().charge(kind)
+        if not was_zero and self.zero_after is not None:
+            self.zero = self.zero_after.pop(0) if self.zero_after else True
+        return r
 
     def binary(self, op, l, r, node):
         budget_test = ("budget",) in (l, r)
